@@ -21,7 +21,8 @@ def main():
     try:
         for p in props:
             t0 = time.time()
-            q = subprocess.run([os.path.join(ROOT, "check"), p, "--tier", "quick"], cwd=ROOT, stdout=subprocess.PIPE, stderr=subprocess.STDOUT, text=True, timeout=3600)
+            env = dict(os.environ, VERIF_EVIDENCE_DIR="/tmp/seedtest_evidence")
+            q = subprocess.run([os.path.join(ROOT, "check"), p, "--tier", "quick"], cwd=ROOT, env=env, stdout=subprocess.PIPE, stderr=subprocess.STDOUT, text=True, timeout=3600)
             vio = [l for l in q.stdout.split("\n") if l.startswith("VIOLATION")]
             res[p] = dict(exit=q.returncode, violations=vio[:3], wall=round(time.time() - t0, 1))
             print("%s exit=%d %s (%.0fs)" % (p, q.returncode, vio[:1], time.time() - t0), flush=True)
